@@ -135,7 +135,7 @@ impl Prop for C15 {
         tier.pick(1_500, 20_000)
     }
     fn release_fraction(&self, tier: Tier) -> f64 {
-        tier.pick(0.3, 0.5)
+        tier.pick(0.3, 0.1)
     }
     fn max_shrink_iters(&self) -> u32 {
         300
